@@ -19,6 +19,7 @@ type Obl struct {
 	Pos    string
 	Syms   [][2]string // (label, term) to evaluate in a model
 	Expect string      // "unsat" (default) or "sat" (vacuity/cover checks)
+	Decided string     // structural obligations are decided by the analysis itself: "unsat" (holds) or "sat" (fails); no solver call
 }
 
 // VC accumulates the SMT commands and obligations for one verified function.
